@@ -52,6 +52,10 @@ checks = {
    text="Every operation sequence up to depth 3 (thorough 4 reduced) over derive/new account/new scope/imports/passphrase changes/lock/unlock/convert-to-watching-only/restart on a real manager; at the commit boundary after the last operation the raw database file (all pages including freed ones) is scanned for every secret that can exist for the seed in raw, hex and serialized text form and for every sensitive public datum (no transaction is recorded in these histories); the image written by wallet.Create is scanned too; after conversion and reopen every address must still be known, no passphrase may unlock and no accessor may return private material.",
    note="Patterns torn across a page boundary of a partially written commit are not modelled; secrets come from the independent reference derivation for a superset of what the alphabet can create.",
    technique="bounded exhaustive enumeration of operation sequences on the implementation with a byte-level scan of the file image at every commit boundary"),
+ "C10": dict(engine="faultdb", level=FE, ref="4/C10",
+   text="For every (state, mutating operation) pair of the address manager (next/extend/new account/imported xpub account/rename/mark used/imports/passphrase changes/convert to watching-only/set synced/new scope, from several states) and for every chain event, lease, release, sweep and label operation of the transaction store from every reachable state of the curated tx-graph universes, a fault-free run counts the database writes N and then each of the N write positions is failed in turn through a proxy of the walletdb interfaces. Oracle: success implies full effect (observations of live and restarted manager and database key structure, or the store dump, equal the fault-free run); an error implies that after rollback database bytes and manager answers are as before; a retry gives the fault-free result.",
+   note="Single-fault model (exactly one failing write per operation); faults in reads and in commit itself are not injected; answers about never-issued addresses are not compared.",
+   technique="exhaustive fault-position enumeration on the real code through an interface proxy, differential against the fault-free run"),
 }
 pending_reason = "check not built yet in this session (planned, see DESIGN.md section 4)"
 def sh(c): return subprocess.run(c, shell=True, capture_output=True, text=True).stdout.strip()
@@ -65,6 +69,7 @@ m = {
   {"name": "maporder", "path": "ovgen + harness/vorder", "serves_properties": ["C14"], "kind_free_text": "go build -overlay generated from the current tree rewrites map ranges into harness-controlled order; DFS over all order choice vectors"},
   {"name": "seqx", "path": "harness/amgr", "serves_properties": ["C03","C04","C05","C08","C10"], "kind_free_text": "stateless bounded-depth enumeration of operation sequences on real waddrmgr managers (fresh copy of a template database per execution), 16 workers"},
   {"name": "vsched-chan", "path": "harness/c18", "serves_properties": ["C18"], "kind_free_text": "controlled scheduler with a channel/select model; queue.go rewritten by an AST pass generated from the current tree; DFS with visited set over canonical global states"},
+  {"name": "faultdb", "path": "harness/faultdb", "serves_properties": ["C10"], "kind_free_text": "walletdb bucket/cursor/tx proxy that counts mutating calls and fails exactly the k-th"},
   {"name": "txgraph", "path": "harness/txgraph", "serves_properties": ["C01","C02","C12","C13","C14","C10"], "kind_free_text": "explicit-state BFS over the real wtxmgr.Store (state = canonical namespace dump) with a reference ledger in lock-step"},
  ],
  "checks": [], "not_applicable": [],
